@@ -108,7 +108,7 @@ func init() {
 		Word32: true,
 		Level:  "exploration",
 		Rule: "E1 bounded-exhaustive enumeration: sources (s,from,to) = every string of length ≤3 over a small byte alphabet, every byte value as a one-byte string, also behind stems of 7/8/9 (thorough: 15/16/17) bytes in 4 variants (first byte 's' / 0x00 / 0xff, eighth byte 0x80), × every 0 ≤ from ≤ to ≤ 8·len, plus a from sweep (every start bit of strings of 9 / 17 / 33 bytes with ends at the start, one bit on and at the last two positions), plus a byte-lane sweep (8-byte words with a class byte 'a'/80/ff in lane L and the difference in lane D, every ordered pair of lanes, alone and followed by one byte), plus EVERY stem length 0..40 with the last 10 bit positions as ends (stemmed: from in {0,8}, to around the stem end and in the tail); per source Len(New(..)) and Cmp with the canonical encoding of the same bit string must be 0; Cmp on ALL ordered pairs of canonical encodings (one per distinct bit string); " +
-			"plus 96 sources of 2^8 and 2^12 (±1) bytes compared in all pairs, and 48 sources of 2^16 (±1) bytes (thorough also 2^20+1) in all ordered pairs: Len, Cmp both ways, CmpUpto, StrCmpUpto against a byte-wise reference; CmpUpto and StrCmpUpto (from a fixed alphabet of call frames, after poisoning the dead stack with 0x00 and 0xff) on plain strings × all canonical encodings. Oracle: Go string comparison of '0'/'1' renderings (lexicographic, proper prefix first). A case is one call; non-trivial when both bit strings are non-empty.",
+			"plus 96 sources of 2^8 and 2^12 (±1) bytes compared in all pairs, and 48 sources of 2^16 (±1) bytes (thorough also 2^20+1) in all ordered pairs: Len, Cmp both ways, CmpUpto, StrCmpUpto against a byte-wise reference; CmpUpto and StrCmpUpto (from a fixed alphabet of call frames, after poisoning the dead stack with 0x00 and 0xff) on plain strings × all canonical encodings, plus a LENGTH SWEEP: encodings of every payload length 1..136 bytes × 4 end bits against plain keys 2 shorter .. 3 longer and 40 longer, equal or differing in the last compared byte / the first byte beyond it. Oracle: Go string comparison of '0'/'1' renderings (lexicographic, proper prefix first). A case is one call; non-trivial when both bit strings are non-empty.",
 		Assumptions: []string{
 			"byte values outside the alphabet and longer strings are not enumerated; lengths straddle the 8-byte fast-path switch through the stems",
 			"StrCmpUpto's dependence on neighbouring stack words is covered for the harness's call frames and this toolchain only",
@@ -545,6 +545,52 @@ func c09Run(c *mc.Ctx) {
 		c.Count(evals, evals)
 		c.Expect(evals)
 		c.Add("big_string_cases", evals)
+	}
+	// LENGTH SWEEP for CmpUpto / StrCmpUpto: an encoding of EVERY payload length 1..136 bytes (4 end bits in
+	// the last byte) against plain keys of the same bytes that are 2 shorter .. 3 longer and 40 longer than
+	// the payload - equal, and differing (below / above) in the last compared byte or in the first byte
+	// beyond it: a copy into a fixed-size buffer, a length class, an off-by-one on the trailing mask byte
+	{
+		base := make([]byte, 200)
+		for i := range base {
+			base[i] = byte('a' + (i*7+i/13)%23)
+		}
+		type lj struct {
+			p, to, k, at int
+			d            int
+		}
+		var ljs []lj
+		for p := 1; p <= 136; p++ {
+			for _, to := range []int{8*p - 7, 8*p - 4, 8*p - 1, 8 * p} {
+				for _, k := range []int{p - 2, p - 1, p, p + 1, p + 2, p + 3, p + 40} {
+					if k < 0 {
+						continue
+					}
+					ljs = append(ljs, lj{p, to, k, -1, 0})
+					for _, at := range []int{p - 1, p} {
+						if at < k {
+							ljs = append(ljs, lj{p, to, k, at, -1}, lj{p, to, k, at, 1})
+						}
+					}
+				}
+			}
+		}
+		c.Expect(int64(2 * len(ljs)))
+		c.Par(len(ljs), func(i int) {
+			j := ljs[i]
+			plain := append([]byte(nil), base[:j.k]...)
+			if j.at >= 0 {
+				plain[j.at] = byte(int(plain[j.at]) + j.d*0x11)
+			}
+			cs := c09Case{A: c09Src{gen.Bytes(base[:j.p]), 0, int32(j.to)}, Plain: gen.Bytes(plain)}
+			for ki, kind := range []string{"CmpUpto", "StrCmpUpto"} {
+				if g, w := c09Judge(kind, cs); g != w {
+					c.Fail(6<<40|int64(i)<<1|int64(ki), kind, kind+"/length-sweep", cs, g, w)
+				}
+			}
+			c.Count(2, 2)
+			c.Add("upto_length_sweep_cases", 2)
+		})
 	}
 	// very long strings: 2^16 (±1) bytes, thorough also 2^20+1 - lengths and bit counts beyond 16 bits of
 	// range; 16 sources per length (top bit of no byte / the first / the middle / the last byte flipped ×
